@@ -269,6 +269,19 @@ def run(chk):
                 dis.append({"what": "stale-known-finding", "class": KNOWN_VF2, "note": "the probe now follows the value format; the KNOWN_FINDINGS entry is stale"})
         else:
             fails.append({"what": "pair-probe-unexpected", "probe": m.group(0) if m else (out + err)[-300:], "request": "glyphs 1 2 3 ltr"})
+        # ---- marks behind the outputs of a MultipleSubst sequence, MarkToLigature and MarkToBase lookups in one feature
+        rc, out, err = C.run_rbv(binp, ["c07", "multmark"], timeout=300)
+        m = re.search(r"multmark-summary cases=(\d+) attached_marks=(\d+) bad=(\d+)", out)
+        if m:
+            chk.add_eval(int(m.group(1)), int(m.group(2)))
+            chk.note("marks_behind_multiple_subst", {"cases": int(m.group(1)), "attached_marks": int(m.group(2)), "bad": int(m.group(3))})
+        else:
+            dis.append({"what": "multmark produced no summary", "stderr": err[-300:]})
+        for line in out.splitlines():
+            if line.startswith("multmark-fail"):
+                fails.append({"what": "geometry-mark-behind-multiple-subst", "detail": line[:1500],
+                              "request": line.split("req=[")[1].split("]")[0] if "req=[" in line else "",
+                              "font": "c07 multmark (ccmp: x -> P Q; mark: MarkToLigature {M; L} and MarkToBase {M; P[, Q], b}, order and coverage in the line)"})
         # ---- kern on/off on corpus fonts
         rc, out, err = C.run_rbv(binp, ["c07", "kernoff-corpus"], timeout=600)
         for line in out.splitlines():
